@@ -1,14 +1,19 @@
 #!/bin/bash
 # usage: scripts/mutant.sh <patch.diff> <property-id> [tier]
-# Applies a property-breaking patch to /repo, runs the check, and always reverts.
+# Applies a property-breaking patch to a scratch worktree of /repo (HEAD + the
+# patch; /repo itself is not touched), runs the check against it with evidence
+# and replays redirected to a scratch directory, and removes the worktree.
 set -u
 patch=$(readlink -f "$1"); id=$2; tier=${3:-quick}
-cd /repo || exit 2
-if ! git diff --quiet; then echo "repo dirty"; exit 2; fi
-git apply "$patch" || { echo "patch does not apply"; exit 2; }
-trap 'git -C /repo checkout -- . ; git -C /repo clean -fdq -- pkg cmd 2>/dev/null' EXIT
+wt=$(mktemp -d /var/tmp/mutwt-XXXXXX); rmdir "$wt"
+git -C /repo worktree add -q --detach "$wt" HEAD || exit 2
+cleanup(){ git -C /repo worktree remove --force "$wt" 2>/dev/null; rm -rf "$wt" "$ev"; }
+ev=$(mktemp -d /var/tmp/mutev-XXXXXX)
+trap cleanup EXIT
+( cd "$wt" && git apply "$patch" ) || { echo "patch does not apply"; exit 2; }
 out=$(mktemp)
-cd /verif && bin/check "$id" --tier "$tier" > "$out" 2>&1; code=$?
+cd /verif && VERIF_REPO="$wt" VERIF_OUT_DIR="$ev" bin/check "$id" --tier "$tier" > "$out" 2>&1; code=$?
 grep -E "VIOLATION|ENGINE-ERROR|UNCONFIRMED|tier=" "$out" | cut -c1-${MUTANT_COLS:-400} | head -${MUTANT_LINES:-8}
+if [ "$code" = 2 ]; then tail -20 "$out"; fi
 echo "known-findings=$(grep -c KNOWN-FINDING "$out") exit=$code"
 rm -f "$out"
